@@ -1,0 +1,70 @@
+//go:build verif
+
+package p2p
+
+import (
+	"sort"
+
+	libpeer "github.com/libp2p/go-libp2p/core/peer"
+)
+
+// SimHook is set by the deterministic simulator (build tag `verif` only).
+var SimHook struct {
+	// Order, if set, makes the peer tracker hand out peers in a reproducible order:
+	// sorted by peer ID and then permuted by the returned indices (nil = sorted order).
+	Order func(ids []string) []int
+}
+
+func simOrderIDs(ids []libpeer.ID) []libpeer.ID {
+	sort.Slice(ids, func(i, j int) bool { return ids[i] < ids[j] })
+	strs := make([]string, len(ids))
+	for i, id := range ids {
+		strs[i] = id.String()
+	}
+	perm := SimHook.Order(strs)
+	if perm == nil {
+		return ids
+	}
+	out := make([]libpeer.ID, 0, len(ids))
+	for _, i := range perm {
+		if i >= 0 && i < len(ids) {
+			out = append(out, ids[i])
+		}
+	}
+	return out
+}
+
+func simSortPeerStats(stats []*peerStat) {
+	if SimHook.Order == nil {
+		return
+	}
+	byID := make(map[libpeer.ID]*peerStat, len(stats))
+	ids := make([]libpeer.ID, 0, len(stats))
+	for _, st := range stats {
+		byID[st.peerID] = st
+		ids = append(ids, st.peerID)
+	}
+	for i, id := range simOrderIDs(ids) {
+		if i < len(stats) {
+			stats[i] = byID[id]
+		}
+	}
+}
+
+func simTrackedOrder(tracked map[libpeer.ID]*peerStat, maxPeers int) []libpeer.ID {
+	if SimHook.Order == nil {
+		return nil
+	}
+	ids := make([]libpeer.ID, 0, len(tracked))
+	for id := range tracked {
+		ids = append(ids, id)
+	}
+	ids = simOrderIDs(ids)
+	if len(ids) > maxPeers {
+		ids = ids[:maxPeers]
+	}
+	if ids == nil {
+		ids = []libpeer.ID{}
+	}
+	return ids
+}
